@@ -105,6 +105,11 @@ class Experiment:
                 await (time + 1)
                 k += 1
                 self.rec('tick', th=th, run=rid, root=idx, t=time.now, expect=start + r['d'] + k)
+        if kind == 'cleanup':         # an activity whose clean-up awaits (it must be left alone when the run is aborted)
+            try:
+                await (time + 9)
+            finally:
+                await (time + 1)
         if kind == 'raise':
             self.rec('root_end', th=th, run=rid, root=idx, how='raise')
             raise RootErr(100 * rid + idx)
@@ -132,7 +137,7 @@ class Experiment:
         return self.trace
 
 
-KINDS = ['ok', 'ok', 'raise', 'ret', 'nested_ok', 'nested_raise']
+KINDS = ['ok', 'ok', 'raise', 'ret', 'nested_ok', 'nested_raise', 'cleanup']
 
 
 def till_spec(rng):
